@@ -30,10 +30,18 @@ def genFacts : Facts :=
   { audAssertUnchecked := GenC09.uncheckedAsserts.any (fun p => p.1 == "oidc.Audience.UnmarshalJSON"),
     -- when ParseToken is not the audited text any more, the model assumes the weaker behaviour
     parseTokenObjectOnly := pinnedParseTokenObjectOnly && GenC09.ParseToken_skeleton == pinnedParseToken,
-    sites := GenC09.decodeSites }
+    sites := GenC09.decodeSites,
+    returns := GenC09.verifierReturns,
+    callers := GenC09.tolerantCallers }
 
 /-- unchecked type assertions that were audited: the schema encoder registered for `SpaceDelimitedArray` is only ever
     called by zitadel/schema with a value of exactly that type -/
 def auditedAsserts : List (String × String) := [("oidc.NewEncoder", "value.Interface().(SpaceDelimitedArray)")]
+
+/-- KNOWN FINDING F-C09f: `op.Authorize` declares `var client Client` and assigns it only inside the default validation
+    closure; an authorizer implementing `op.AuthorizeValidator` replaces that closure, `client` stays nil and
+    `RedirectToLogin(req.GetID(), client, w, r)` calls `LoginURL` on the nil interface: every VALID authorization request
+    panics.  Once repaired this list is empty. -/
+def knownClosureAssigned : List (String × String) := [("op.Authorize", "client")]
 
 end C09
